@@ -1,6 +1,7 @@
 """C12 - numerical-derivative wrappers are transparent and exact on low-degree polynomials.
 Design model: spec/NumDeriv/NumDeriv.tla (+NumDerivMC, NumDerivLemmas);
 binding: harness/drv_numderiv.cpp traces validated by NumDerivTrace.tla."""
+import glob
 import json
 import os
 from concurrent.futures import ThreadPoolExecutor
@@ -48,6 +49,15 @@ def _sig(rj):
         act += ":" + str(ev.get("k", ""))
     return {"action": act, "invariant": rj.invariant or "step", "scheme": scheme, "stale": ev.get("stale", False),
             "entry": ev.get("entry", ""), "out": str(ev.get("out", ""))[:5]}
+
+
+def _cleanup():
+    # TLC drops a *_TTrace_* specification next to the module for every violated invariant
+    for f in glob.glob(os.path.join(SPEC, "*_TTrace_*")):
+        try:
+            os.remove(f)
+        except OSError:
+            pass
 
 
 def _validate(ck, trace, tag):
@@ -144,7 +154,7 @@ def run(tier, seed):
     for b in BUGS:
         cfg = os.path.join(wd, "bug_%s.cfg" % b[0])
         _cfg(cfg, *b[1:], bug=b[0])
-        r = vc.model_check(SPEC, "NumDerivMC", cfg, workers=4, timeout=1200, heap="4g")
+        r = vc.model_check(SPEC, "NumDerivMC", cfg, workers=4, timeout=1200, heap="4g", extra=("-noGenerateSpecTE",))
         caught[b[0]] = r.invariant
         if not r.invariant:
             raise vc.MachineryError("seeded design defect '%s' is not rejected by the invariants" % b[0])
@@ -176,11 +186,13 @@ def run(tier, seed):
     ck.assumptions = ["TLC; CommunityModules Json", "harness Function logs every fireParameterChanged/getValue/enable call it receives",
                       "E3: value comparisons only for updates whose evaluations were all exact in binary64 (driver re-evaluates in exact dyadic arithmetic)",
                       "probe step rule h*(1+|x|) is part of the model (Hof)"]
+    _cleanup()
     return ck.finish()
 
 
 def replay(path):
     n_ev, rej, st = vc.validate_trace(SPEC, "NumDerivTrace", os.path.join(SPEC, "NumDerivTrace.cfg"), path, parallel=1)
+    _cleanup()
     for rj in rej:
         vc.log("VIOLATION property=C12 replay=%s" % path)
         vc.log("  %s at event #%d: %s" % (rj.reason, rj.index, rj.event))
